@@ -150,7 +150,8 @@ def text_of(htmltext):
 
 
 HEAD_TEXTS = ["alpha", "beta *em* gamma", "`code` here", "a **strong** b", "x &amp; y", "[link](http://u.v) z", "tail <b>raw</b> t",
-              "q < r", "plain words here", "![img](i.png) cap", "one\\*two", "e ~~s~~ f", ""]
+              "q < r", "plain words here", "![img](i.png) cap", "one\\*two", "e ~~s~~ f", "",
+              "c <!-- x > y --> d", "<!-- a --> b <i>c</i>", "e <!-- --> f <!-- > -->", "x <a href=\"u\">l</a> y", "<span class=\"k\">s</span> t <!-- <b> -->", "[l](/u \"a>b\") m", "![a > b](/i.png) n"]
 
 
 def heading_doc(rng):
@@ -173,11 +174,11 @@ def heading_doc(rng):
     return "\n".join(lines) + "\n"
 
 
-def expected_items(doc, lo, hi, all_ids=False):
+def expected_items(doc, lo, hi, all_ids=False, escape=True):
     """independent: from the token list of a hook-free parser"""
     import mistune
     ast = mistune.create_markdown(renderer="ast", plugins=["strikethrough"])(doc)
-    hmd = mistune.create_markdown(escape=True, plugins=["strikethrough"])
+    hmd = mistune.create_markdown(escape=escape, plugins=["strikethrough"])
     heads = [t for t in ast if t["type"] == "heading"]
     if not all_ids:
         heads = [t for t in heads if lo <= t["attrs"]["level"] <= hi]
@@ -198,20 +199,21 @@ def hook_part(ctx, n_docs):
     for _ in range(n_docs):
         doc = heading_doc(ctx.rng)
         lo = ctx.rng.randint(1, 4); hi = ctx.rng.randint(lo, 6)
-        md = mistune.create_markdown(escape=True, plugins=["strikethrough"])
+        esc = ctx.rng.random() < 0.65       # with escaping off raw tags and comments reach the heading HTML, and "markup removed" must remove them
+        md = mistune.create_markdown(escape=esc, plugins=["strikethrough"])
         add_toc_hook(md, lo, hi)
         try:
             html, state = md.parse(doc)
         except Exception as e:
-            ctx.fail("toc-hook:exception", "toc hook raised %r" % e, {"kind": "hook", "doc": doc, "min": lo, "max": hi})
+            ctx.fail("toc-hook:exception", "toc hook raised %r" % e, {"kind": "hook", "doc": doc, "min": lo, "max": hi, "escape": esc})
             continue
         n += 1
         # texts are compared modulo surrounding ASCII whitespace: a setext heading's source text keeps its final
         # newline, which the TOC entry shows as a trailing "\n" inside the <a> (insignificant in HTML, not "markup")
         got = [(x[0], x[1], x[2].strip()) for x in state.env.get("toc_items", [])]
-        exp, nheads = expected_items(doc, lo, hi)
+        exp, nheads = expected_items(doc, lo, hi, escape=esc)
         if got != exp:
-            ctx.fail("toc-hook:items", "toc_items %r differ from the top-level headings in range %r" % (got, exp), {"kind": "hook", "doc": doc, "min": lo, "max": hi})
+            ctx.fail("toc-hook:items", "toc_items %r differ from the top-level headings in range %r (escape=%s)" % (got, exp, esc), {"kind": "hook", "doc": doc, "min": lo, "max": hi, "escape": esc})
             continue
         ids = re.findall(r'<h[1-6] id="([^"]*)"', html)
         if ids != [e[1] for e in exp]:
